@@ -8,10 +8,10 @@ package proxy
 
 import (
 	"crypto/sha1"
-	"runtime"
 	"encoding/json"
 	"fmt"
 	"os"
+	"runtime"
 	"sort"
 	"strconv"
 	"strings"
